@@ -141,6 +141,7 @@ structure DSt where
   ctor : Bool := false
   irows : List (Key × Row) := []     -- rows as observed on the implementation
   icmd : List (Key × CRow) := []
+  fence : List (Key × Nat) := []     -- per row: highest source version accepted so far (from the implementation's outputs)
   scans : List Scan := []
 
 def getScan (d : DSt) (slot uid : Nat) : Scan :=
@@ -191,32 +192,53 @@ def simCRow (prev : Option CRow) : List Op → Option CRow × Verdict
     Intermediate states of a batch are not observable: with several sub-ops only the
     end-to-end transition is judged; a regression is classified by the reducers' replay
     when that replay explains the observed final row, and is a plain regression otherwise. -/
-def judgeKeyRow (prev nw : Option Row) (ops : List Op) : Verdict :=
+def judgeKeyRow (prev nw : Option Row) (ops : List Op) (implOk : Bool) : Verdict :=
   match ops with
   | [o] => judgeRow prev nw o
   | _ =>
-    let generic := judgeRow prev nw (.dl ⟨0, 0, 0, 0⟩)
-    if generic == .ok then .ok else
     let (f, v) := simRow prev ops
+    -- a committed batch is the sequential history of its sub-ops: a final cursor below the one
+    -- the batch's own earlier sub-op had reached is an advance that was applied and then lost
+    let lostAdvance := implOk && (match f, nw with
+      | some a, some b => decide (b.read < a.read) || decide (b.del < a.del)
+      | _, _ => false)
+    let generic := judgeRow prev nw (.dl ⟨0, 0, 0, 0⟩)
+    if generic == .ok then (if lostAdvance then .regressed else .ok) else
     if f == nw then v else generic   -- explained replay: `ok` only if the row was deleted in between
 
-def judgeKeyCRow (prev nw : Option CRow) (ops : List Op) : Verdict :=
+def judgeKeyCRow (prev nw : Option CRow) (ops : List Op) (implOk : Bool) : Verdict :=
   match ops with
   | [o] => judgeCRow prev nw o
   | _ =>
-    let generic := judgeCRow prev nw (.dl ⟨0, 0, 0, 0⟩)
-    if generic == .ok then .ok else
     let (f, v) := simCRow prev ops
-    if f == nw then v else generic   -- explained replay: `ok` only if the row was deleted in between
+    let lostAdvance := implOk && (match f, nw with
+      | some a, some b => decide (b.ack < a.ack)
+      | _, _ => false)
+    let generic := judgeCRow prev nw (.dl ⟨0, 0, 0, 0⟩)
+    if generic == .ok then (if lostAdvance then .regressed else .ok) else
+    if f == nw then v else generic
+
+/-- the highest source version among the upserts / ensures this row has accepted, as observed on
+    the implementation (an `up`/`en` that changed the row was accepted); `none` after a delete -/
+def fenceAfter (old : Option Nat) (prev nw : Option Row) (ops : List Op) : Option Nat :=
+  match nw with
+  | none => none
+  | some b =>
+    match ops with
+    | [.up _ nx] | [.en _ nx] =>
+      let base := max ((old.getD 0)) b.sv
+      some (if prev != nw then max base nx.sv else base)
+    | [_] => some (max (old.getD 0) b.sv)
+    | _ => some b.sv
 
 /-- judge one observed row transition and update the observed tables -/
-def judgeOne (d : DSt) (k : Key) (cmd : Bool) (ops : List Op) (implRow : String) : DSt × String :=
+def judgeOne (d : DSt) (k : Key) (cmd : Bool) (ops : List Op) (implRow : String) (implOk : Bool) : DSt × String :=
   if cmd then
     match parseCRow implRow with
     | none => (d, "viol:unparseable-output")
     | some nw =>
       let prev := get k d.icmd
-      let v := judgeKeyCRow prev nw ops
+      let v := judgeKeyCRow prev nw ops implOk
       let vs :=
         if d.ctor then
           match prev, nw with
@@ -229,10 +251,16 @@ def judgeOne (d : DSt) (k : Key) (cmd : Bool) (ops : List Op) (implRow : String)
     | none => (d, "viol:unparseable-output")
     | some nw =>
       let prev := get k d.irows
-      let v := judgeKeyRow prev nw ops
+      let v0 := judgeKeyRow prev nw ops implOk
+      -- an upsert / ensure older than a version this row already accepted must not change it
+      let fence := get k d.fence
+      let staleByFence := match ops, fence with
+        | [.up _ nx], some f | [.en _ nx], some f => decide (nx.sv < f) && prev != nw && prev.isSome
+        | _, _ => false
+      let v := if staleByFence then Verdict.stale else v0
       let vs := if d.ctor && v != .ok then "viol:cursor-regressed-ctor-stream" else v.str
       let d1 := if prev != nw then markDirty d k else d
-      ({ d1 with irows := setI k nw d1.irows }, vs)
+      ({ d1 with irows := setI k nw d1.irows, fence := setI k (fenceAfter fence prev nw ops) d1.fence }, vs)
 
 def curStr (c : Cur) : String := s!"{c.act}:{idStr c.ch}:{c.ct}"
 
@@ -312,12 +340,15 @@ def c16Step (d : DSt) (op impl : String) : DSt × String × String :=
       let out := " ".intercalate (e.str :: ops.map (opRowStr m'))
       let d1 := { d with m := m' }
       match fields impl with
-      | _ :: irows =>
+      | ie :: irows =>
         if irows.length != ops.length then (d1, out, "viol:unparseable-output") else
-        let (d2, v) := (ops.zip irows).foldl (fun (acc : DSt × String) (p : Op × String) =>
+        let implOk := ie == "ok"
+        -- every row is judged once per batch (its sub-ops taken together, in order)
+        let (d2, v, _) := (ops.zip irows).foldl (fun (acc : DSt × String × List (Key × Bool)) (p : Op × String) =>
+          if acc.2.2.contains (p.1.key, p.1.isCmd) then acc else
           let mine := ops.filter fun o => o.key == p.1.key && o.isCmd == p.1.isCmd
-          let (dn, vn) := judgeOne acc.1 p.1.key p.1.isCmd mine p.2
-          (dn, worst acc.2 vn)) (d1, "ok")
+          let (dn, vn) := judgeOne acc.1 p.1.key p.1.isCmd mine p.2 implOk
+          (dn, worst acc.2.1 vn, (p.1.key, p.1.isCmd) :: acc.2.2)) (d1, "ok", [])
         (d2, out, v)
       | [] => (d1, out, "viol:unparseable-output")
   | fs =>
@@ -329,7 +360,7 @@ def c16Step (d : DSt) (op impl : String) : DSt × String × String :=
       let d1 := { d with m := m' }
       match fields impl with
       | [_, irow] =>
-        let (d2, v) := judgeOne d1 o.key o.isCmd [o] irow
+        let (d2, v) := judgeOne d1 o.key o.isCmd [o] irow true
         (d2, out, v)
       | _ => (d1, out, "viol:unparseable-output")
 
